@@ -37,6 +37,7 @@
 #include "vpeer.h"
 #include "vs.h"
 #include "orderrace.h"
+#include "sendrace.h"
 #include <stdarg.h>
 #include <stdlib.h>
 #include <string.h>
@@ -867,5 +868,8 @@ main(int argc, char **argv)
 			if (i == 0 || vx_is_thorough())
 				orc_explore_tiers(&OR[i]);
 	}
+	SR_PROP = "C08";
+	sr_explore("C08", 0, vx_is_thorough());
+	sr_explore("C08", 1, vx_is_thorough());
 	return vx_finish();
 }
